@@ -381,6 +381,7 @@ func specInScope(stack []scope, n int, s scope) bool {
 //@ func (*Parser).evaluateSwitch
 //@   ensures[C13] a-statement-or-an-error: err == nil ==> result0 != nil
 //@   loop @"CLOSING_CURLY_BRACKET" invariant[C01,C12] the-token-decided-on-is-the-current-token: nextToken == p.peek()
+//@   loop @"CLOSING_CURLY_BRACKET" invariant[C13] the-chain-so-far-has-its-conditions-and-statements: fakeIf.ifBranch.condition != nil && forall(k, 0, len(fakeIf.ifBranch.body), fakeIf.ifBranch.body[k] != nil) && forall(j, 0, len(fakeIf.elifBranches), fakeIf.elifBranches[j].condition != nil && forall(k, 0, len(fakeIf.elifBranches[j].body), fakeIf.elifBranches[j].body[k] != nil)) && forall(k, 0, len(fakeIf.elseBranch.body), fakeIf.elseBranch.body[k] != nil)
 //@   loop @"CLOSING_CURLY_BRACKET" invariant[C01,C04] one-branch-per-case: (useMock ==> calls(evaluateExpression) == ite(old(p.peekAt(1)).tokenType == lexer.OPENING_CURLY_BRACKET, 0, 1) && len(fakeIf.elifBranches) == 0) && (!useMock ==> 1 + len(fakeIf.elifBranches) == calls(evaluateExpression) - ite(old(p.peekAt(1)).tokenType == lexer.OPENING_CURLY_BRACKET, 0, 1))
 //@   loop @"CLOSING_CURLY_BRACKET" invariant[C01,C04] every-case-is-compared-with-the-one-tag-value: (!useMock ==> isType(fakeIf.ifBranch.condition, "parser.Comparison") && asType(fakeIf.ifBranch.condition, "parser.Comparison").left == tagExpr) && forall(k, 0, len(fakeIf.elifBranches), isType(fakeIf.elifBranches[k].condition, "parser.Comparison") && asType(fakeIf.elifBranches[k].condition, "parser.Comparison").left == tagExpr)
 //@   ensures[C01,C04] a-tag-that-cannot-be-read-repeatedly-is-evaluated-once-into-a-hidden-variable: err == nil && old(p.peekAt(1)).tokenType != lexer.OPENING_CURLY_BRACKET && calls(evaluateExpression) >= 1 && !specReadRepeatedly(res(evaluateExpression, 0, 0)) ==> isType(result0, "parser.If") && asType(result0, "parser.If").ifBranch.condition == specBoolLit(true) && len(asType(result0, "parser.If").ifBranch.body) == 2 && isType(asType(result0, "parser.If").ifBranch.body[0], "parser.VariableDefinition") && len(asType(asType(result0, "parser.If").ifBranch.body[0], "parser.VariableDefinition").values) == 1 && asType(asType(result0, "parser.If").ifBranch.body[0], "parser.VariableDefinition").values[0] == res(evaluateExpression, 0, 0) && len(asType(asType(result0, "parser.If").ifBranch.body[0], "parser.VariableDefinition").variables) == 1 && isType(asType(result0, "parser.If").ifBranch.body[1], "parser.If") && len(asType(result0, "parser.If").elifBranches) == 0 && len(asType(result0, "parser.If").elseBranch.body) == 0
@@ -547,6 +548,7 @@ func specInScope(stack []scope, n int, s scope) bool {
 //
 //@ func (*Parser).evaluateIf
 //@   ensures[C13] a-statement-or-an-error: err == nil ==> result0 != nil
+//@   loop @"for true" invariant[C13] the-chain-so-far-has-its-conditions-and-statements: i >= 0 && (i >= 1 ==> ifStatement.ifBranch.condition != nil) && forall(k, 0, len(ifStatement.ifBranch.body), ifStatement.ifBranch.body[k] != nil) && forall(j, 0, len(ifStatement.elifBranches), ifStatement.elifBranches[j].condition != nil && forall(k, 0, len(ifStatement.elifBranches[j].body), ifStatement.elifBranches[j].body[k] != nil)) && forall(k, 0, len(ifStatement.elseBranch.body), ifStatement.elseBranch.body[k] != nil)
 //@   loop @"for true" invariant[C06] conditions-so-far-boolean: i >= 0 && (i >= 1 ==> specTyped(ifStatement.ifBranch.condition) && ifStatement.ifBranch.condition.ValueType().IsBool()) && forall(k, 0, len(ifStatement.elifBranches), specTyped(ifStatement.elifBranches[k].condition) && ifStatement.elifBranches[k].condition.ValueType().IsBool())
 //@   loop @"for true" invariant[C01,C04] branches-so-far-kept-in-order: calls(evaluateBlock) == i && (i == 0 ==> calls(evaluateExpression) == 0) && (i >= 1 ==> calls(evaluateExpression) == 1 + len(ifStatement.elifBranches) && ifStatement.ifBranch.condition == res(evaluateExpression, 0, 0) && ifStatement.ifBranch.body == res(evaluateBlock, 0, 0)) && forall(k, 0, len(ifStatement.elifBranches), ifStatement.elifBranches[k].condition == res(evaluateExpression, k + 1, 0))
 //@   ensures[C01,C04] every-else-if-branch-kept-in-source-order: err == nil ==> calls(evaluateExpression) == 1 + len(asType(result0, "parser.If").elifBranches) && asType(result0, "parser.If").ifBranch.condition == res(evaluateExpression, 0, 0) && asType(result0, "parser.If").ifBranch.body == res(evaluateBlock, 0, 0) && forall(k, 0, len(asType(result0, "parser.If").elifBranches), asType(result0, "parser.If").elifBranches[k].condition == res(evaluateExpression, k + 1, 0))
